@@ -197,12 +197,33 @@ class Termination:
         for fi in self.funcs:
             if fi in r(fi):
                 self.rec_func(fi)
+            elif fi.cls and not isinstance(fi.node, ast.Lambda) and self._method_self_calls(fi):
+                # `child.flatten()` inside Node.flatten: the receiver is untyped, so the call graph has no edge; a method calling
+                # its own name on an element of <x>.children is structural recursion all the same
+                self.rec_func(fi)
+
+    def _method_self_calls(self, fi):
+        name = fi.qualname.rsplit(".", 1)[-1]
+        out = []
+        for n in own_nodes(fi.node):
+            if isinstance(n, ast.Call) and isinstance(n.func, ast.Attribute) and n.func.attr == name and isinstance(n.func.value, ast.Name):
+                for p in common.parents(n):
+                    its = []
+                    if isinstance(p, ast.For) and isinstance(p.target, ast.Name) and p.target.id == n.func.value.id:
+                        its.append(p.iter)
+                    if isinstance(p, (ast.ListComp, ast.GeneratorExp)):
+                        its += [g.iter for g in p.generators if isinstance(g.target, ast.Name) and g.target.id == n.func.value.id]
+                    if any(norm_src(i).endswith(".children") for i in its):
+                        out.append(n)
+        return out
 
     def rec_func(self, fi):
         if isinstance(fi.node, ast.Lambda):
             return
         m = fi.module
         calls = [n for n in own_nodes(fi.node) if isinstance(n, ast.Call) and self.prog.callee(m, fi, n).func is fi]
+        if fi.cls:
+            calls += [n for n in self._method_self_calls(fi) if n not in calls]
         key = f"{fi.fq}/recursion"
         what = f"every recursive call of {fi.qualname} is on a strictly smaller argument"
         if not calls:
